@@ -51,10 +51,12 @@ func (t *brokerPublishQOS2Transaction) Pubrel(pubrel *pkts1.Pubrel) error {
 		return err
 	}
 	t.client.messageHandlers.handle(t.client, topic, t.publish)
-	// The message is delivered, the transaction is over whatever happens
-	// to the PUBCOMP: if it does not reach the gateway (or cannot be sent),
-	// the gateway repeats the PUBREL and that is only acknowledged again. It
-	// must not find the transaction and deliver the message once more.
+	err = t.client.send(pubcomp)
+	// The message is delivered, the transaction is over whatever has happened
+	// to the PUBCOMP: if it does not reach the gateway (or could not be
+	// sent), the gateway repeats the PUBREL and that is only acknowledged
+	// again. It must not find the transaction and deliver the message once
+	// more.
 	t.Success()
-	return t.client.send(pubcomp)
+	return err
 }
